@@ -40,9 +40,9 @@ PROPS = {
     "C10": dict(profiles=["iters", "core"], level="proof", props=["C10", "C09src", "SRCtrav", "INVtraverse", "INVnode", "INVarena"]),
     "C11": dict(profiles=["core", "alloc"], level="proof", extra=["selfcheck", "genwrap"], props=["C11", "SRCalloc", "INVarena", "INVnode", "INVid"]),
     "C12": dict(extra=["enum", "genwrap"], profiles=["core", "alloc", "big"], level="proof", props=["C12", "SRCrel", "SRCops", "SRCalloc", "SRCstep", "INVid", "INVrelations", "INVsiblings_range"]),
-    "C13": dict(profiles=["value", "core"], level="proof", extra=["selfcheck", "determinism"], props=["C13", "SRCalloc", "SRCops", "SRCstep", "INVarena", "INVnode"]),
-    "C14": dict(profiles=["print"], level="proof", extra=["printdeep"], props=["C14", "SRCtrav", "INVdebug_pretty_print", "INVtraverse"]),
-    "C15": dict(profiles=[], level="proof", extra=["macro"], props=["C15", "INVmacros_lib"]),
+    "C13": dict(profiles=["value", "core"], level="proof", extra=["selfcheck", "determinism", "genwrap"], props=["C13", "SRCalloc", "SRCops", "SRCstep", "INVarena", "INVnode"]),
+    "C14": dict(profiles=["print"], level="proof", extra=["printdeep"], props=["C14", "SRCtrav", "SRCprint", "INVdebug_pretty_print", "INVtraverse"]),
+    "C15": dict(profiles=[], level="proof", extra=["macro"], props=["C15", "INVmacros_lib", "SRCalloc", "SRCrel", "SRCops"]),
     "C16": dict(profiles=["serde"], level="proof", props=["C16", "INVarena", "INVnode", "INVid"]),
     "C17": dict(profiles=[], level="translation_validation", extra=["features"], props=["C17", "INVlib"]),
     "C18": dict(profiles=[], level="proof", extra=["selfcheck", "autotraits"], props=["C18", "INVlib", "INVarena", "INVnode", "INVtraverse", "INVdebug_pretty_print"]),
@@ -507,7 +507,28 @@ def check(pid, tier, seed):
             if not ok:
                 proof["ok"] = False; proof["log"] += "\ncoqchk: " + log_
         audit = audit_sources()
-        bins = {"debug": harness_bin(False), "release": harness_bin(True)}
+        try:
+            bins = {"debug": harness_bin(False), "release": harness_bin(True)}
+        except ToolError as e:
+            # /repo does not build with the harness.  That is no verdict by itself -- unless the property's own
+            # obligations are already broken (then the property is no longer shown to hold), or it is rustc itself
+            # that refuses the harness's Send/Sync assertions (C18's type-level clause, decided by the compiler).
+            msg = str(e)
+            sendsync = pid == "C18" and re.search(r"cannot be (shared|sent) between threads safely|assert_send_sync", msg) is not None
+            if not (sendsync or not proof["ok"] or audit):
+                raise
+            hdr = []
+            if sendsync:
+                hdr.append("rustc rejects the harness's assert_send_sync::<Arena<T>/Node<T>/NodeId/iterators> instantiations: a type is no longer Send + Sync")
+            if not proof["ok"]:
+                hdr.append("theorems of %s no longer check: %s" % (proof["file"], " | ".join(l for l in (proof["log"] or "").splitlines() if l.strip() and "Closed under" not in l)[-600:]))
+                for n in BUILD_NOTES[:8]: hdr.append(n)
+            hdr.append("the harness does not build against /repo (so no history could be run): " + " ".join(msg.split())[-500:])
+            path = write_replay(pid, hdr, ["# no failing input found"])
+            for h in hdr: log("  " + h)
+            write_evidence(pid, tier, seed, proof, audit, [], {"summary": {}, "violations": []}, time.time() - t0, 1, coq_ok)
+            print("VIOLATION property=%s replay=%s no-failing-input-found" % (pid, path))
+            return 1
         results = []
         batches = plan(pid, tier, seed)
         with concurrent.futures.ThreadPoolExecutor(max_workers=NCPU) as ex:
